@@ -109,7 +109,7 @@ def part_lattice(ctx, rng):
     seen = set()
     for row in r.out["rows"]:
         m0, ms = float(row["m0"]), [float(m) for m in row["ms"]]
-        key = "lattice:m0=%g:ms=%s" % (m0, row["ms"])
+        key = "lattice:m0=%g:ms=%s" % (m0, ",".join(str(m) for m in row["ms"]))
         if key in seen:
             continue
         seen.add(key)
@@ -502,15 +502,15 @@ def part_flat(ctx, scen, rng, runner):
 
     for m0, ms in [(4.0, [0.5, 0.3, 0.0, 0.7]), (4.0, [0.5, 0.3, 0.0, 0.7, 0.2])]:
         Mk, w = P.reference_weighted(rng, m0, ms, 400000)
+        keep = rng.random(len(w)) * w.max() < w  # unweighted reference events (ordinary Poisson chi^2)
         for k in range(2, len(ms)):
             edges, prob = P.spectrum_bins(m0, ms[:k], ms[k:], nbins=20)
-            h, _ = np.histogram(Mk[:, k - 2], edges, weights=w)
-            h2, _ = np.histogram(Mk[:, k - 2], edges, weights=w * w)
-            e = prob * w.sum()
-            use = h2 > 0
-            c2 = float(np.sum((h[use] - e[use]) ** 2 / h2[use]))
-            if stats.chi2.sf(c2, use.sum() - 1) < 1e-7:
-                raise tlc.MachineryError("phase-space oracle disagrees with the reference generator (n=%d, k=%d, chi2=%g/%d)" % (len(ms), k, c2, use.sum() - 1))
+            h, _ = np.histogram(Mk[keep, k - 2], edges)
+            e = prob * keep.sum()
+            use = e >= 20
+            c2 = float(np.sum((h[use] - e[use]) ** 2 / e[use]))
+            if keep.sum() < 2000 or stats.chi2.sf(c2, use.sum() - 1) < 1e-8:
+                raise tlc.MachineryError("phase-space oracle disagrees with the reference generator (n=%d, k=%d, chi2=%g/%d, %d events)" % (len(ms), k, c2, use.sum() - 1, keep.sum()))
     flat = [s for s in scen if len(s["flat"]) == 1]
 
     def find(n, pat, q):
@@ -771,4 +771,11 @@ def run(ctx):
 
 
 def replay(ctx, path):
+    """re-execute the run that produced the replay file (same tier and seed: every random choice is derived from them)"""
+    with open(path) as f:
+        d = json.load(f)
+    ctx.tier, ctx.seed = d.get("tier", ctx.tier), int(d.get("seed", ctx.seed))
+    from .. import prelude
+
+    prelude.seed_all(ctx.seed)
     run(ctx)
